@@ -16,10 +16,11 @@ SIZES = {"quick": 2500, "thorough": 8000}   # thorough = the whole grid
 # more spans per scenario, batch sizes around the default 1000
 N_LARGE = 400
 # combined-fault family (world_store.MIXED_BASE + 0..N_MIXED-1), C09/C11/C12
-N_MIXED = 1000
-SIZES_MIXED = {"quick": {"C09": 60, "C10": 0, "C11": 200, "C12": 60},
-               "thorough": {"C09": N_MIXED, "C10": 0, "C11": N_MIXED,
+N_MIXED = 1600          # 1000.. also have clock skew / foreign-trace dups
+SIZES_MIXED = {"quick": {"C09": 80, "C10": 300, "C11": 300, "C12": 80},
+               "thorough": {"C09": N_MIXED, "C10": N_MIXED, "C11": N_MIXED,
                             "C12": N_MIXED}}
+MIXED_FROM = {"C09": 0, "C10": 1000, "C11": 0, "C12": 0}
 SIZES_LARGE = {"quick": {"C09": 16, "C10": 64, "C11": 24, "C12": 24},
                "thorough": {p: N_LARGE for p in ("C09", "C10", "C11", "C12")}}
 
@@ -209,8 +210,9 @@ def build_units(prop, tier, seed, scale, findings):
     nm = scaled(SIZES_MIXED[tier][prop], scale) if SIZES_MIXED[tier][
         prop] else 0
     rm = random.Random(core.derive(seed, prop, "mixed-scenarios"))
+    pool_m = range(MIXED_FROM[prop], N_MIXED)
     idxs += [ws.MIXED_BASE + i
-             for i in sorted(rm.sample(range(N_MIXED), min(nm, N_MIXED)))]
+             for i in sorted(rm.sample(pool_m, min(nm, len(pool_m))))]
     for i in dict.fromkeys(idxs):
         u = {"kind": "store", "prop": prop, "idx": i,
              "hash_class": hash_class_of(i),
